@@ -64,7 +64,7 @@ class B:
                 dq.append(j)
         return seen
 
-    def can_reach(self, targets, removed=frozenset()):
+    def can_reach(self, targets, removed=frozenset(), removed_edges=frozenset()):
         """Blocks from which some block in `targets` is reachable (inclusive), not passing through removed."""
         seen = set(t for t in targets if t not in removed)
         dq = deque(seen)
@@ -72,7 +72,7 @@ class B:
         while dq:
             j = dq.popleft()
             for i in pr[j]:
-                if i in removed or i in seen:
+                if i in removed or i in seen or (i, j) in removed_edges:
                     continue
                 seen.add(i)
                 dq.append(i)
@@ -279,6 +279,8 @@ class B:
                     ab.add('call:' + f['fn'])
                     if 'res' in f:
                         ab.add('callres:' + f['res'])
+                    if 'selfty' in f:
+                        ab.add('callty:%s@%s' % (f['fn'], f['selfty']))
                 else:
                     op_tokens(f['ind'], ab, ae)
                 arg_locals = []
@@ -423,11 +425,11 @@ def has_origin(origs, spec):
     return any(rx.search(t) for t in origs)
 
 
-def guard_switches(b, sink_blocks, require, within=None):
+def guard_switches(b, sink_blocks, require, within=None, removed_edges=frozenset()):
     """Switch blocks that act as guards for the sink: their discriminant derives from *all* origin specs in
     `require` (list of regexes) and at least one successor cannot reach any sink block.
     Returns list of (block, rejecting successor list)."""
-    can = b.can_reach(set(sink_blocks))
+    can = b.can_reach(set(sink_blocks), removed_edges=removed_edges)
     out = []
     for i, t in b.switches():
         if within is not None and i not in within:
@@ -438,7 +440,7 @@ def guard_switches(b, sink_blocks, require, within=None):
         rej = [j for j in succs if j not in can]
         if not rej:
             # loop-aware: an edge that can reach the sink only by coming back through this very branch
-            can_i = b.can_reach(set(sink_blocks), removed=frozenset([i]))
+            can_i = b.can_reach(set(sink_blocks), removed=frozenset([i]), removed_edges=removed_edges)
             rej = [j for j in succs if j not in can_i]
         if not rej:
             continue
